@@ -216,12 +216,19 @@ def _run_impl(case: dict) -> dict:
             def setup_for(slot):
                 def setup(w):
                     w.close_block = bool(slot.slow)
-                    w.on_write = lambda data, i=slot.idx: emit(i, 'wrote')
+                    w.on_write = lambda data, i=slot.idx, w=w: emit(writer_label(w, i), 'wrote')
                     if slot.cfg == 'block':
                         w.drain_block = True
                     elif slot.cfg == 'fail':
                         w.fail_after = 0
                 return setup
+
+            def writer_label(w, default):
+                """label of the connection object that opened / was handed the socket (the fake net knows)"""
+                for a in fn.attempt_log + fn.incoming_log:
+                    if a['writer'] is w and a['owner'] is not None:
+                        return idx_of(a['owner'])
+                return default
 
             def libw(slot):
                 """library side of the newest socket to one of the slot's addresses"""
@@ -341,6 +348,8 @@ def _run_impl(case: dict) -> dict:
                 awaiting = (slot.origin == 'incoming' and at is not None and not at.done() and c is not None
                             and c.connection_state == PeerConnectionState.AWAITING_INIT and sock_open(slot))
                 reader = c is not None and c._reader_task is not None and not c._reader_task.done() and sock_open(slot)
+                if name in ('firstFrame', 'frame', 'partialEof', 'eof', 'reset') and slot.remote_closed:
+                    return False              # the remote end is gone: it sends / closes nothing any more
                 if name == 'firstFrame':
                     return awaiting
                 if name == 'frame':
@@ -1105,10 +1114,11 @@ def _queue_grid() -> list[dict]:
     def mk(kind, ops, server=False):
         cases.append({'kind': kind, 'server': server, 'ops': ops})
 
-    local = [['disconnect', r] for r in REASONS]
+    local = [['disconnect', r] for r in REASONS] + [['net']]       # ['net'] = Network.disconnect()
     env_reader = [['eof'], ['reset'], ['partialEof'], ['readTimeout']]
     own = [['queueTimeout'], ['send', 'fail'], ['queue', 'fail']]
-    second = [['disconnect', 'REQUESTED'], ['disconnect', 'EOF'], ['eof'], ['reset'], ['queueTimeout'], ['disconnect', 2]]
+    second = [['disconnect', 'REQUESTED'], ['disconnect', 'EOF'], ['eof'], ['reset'], ['queueTimeout'], ['disconnect', 2],
+              ['net']]
     setups = [
         ('direct-P', lambda slow, obf: [['new', 'direct', 0, slow, obf], ['at', 0, 'connectOk', 'ok']], True, False),
         ('direct-F', lambda slow, obf: [['new', 'direct', 1, slow, obf], ['at', 0, 'connectOk', 'ok']], False, False),
@@ -1122,7 +1132,7 @@ def _queue_grid() -> list[dict]:
                 ('s+q', [['at', 0, 'send', 'block'], ['at', 0, 'queue', 'block']])]
 
     def at(o):
-        return ['at', 0] + o
+        return ['net', 'disconnect'] if o == ['net'] else ['at', 0] + o
 
     def closing_tail(slow):
         return ([['at', 0, 'closeDone', 'release']] if slow else []) + \
@@ -1343,6 +1353,25 @@ WITNESSES = [
      'ops': [['new', 'direct', 0, 0, 0], ['at', 0, 'cancelAttempt']]},
     {'kind': 'witness:disconnect-during-open', 'server': False,
      'ops': [['new', 'direct', 0, 0, 0], ['at', 0, 'disconnect'], ['at', 0, 'connectOk', 'ok']]},
+    # output pending (a queued message whose drain() is held back / whose task has not started) when the connection is
+    # closed twice: two local calls, a local call overtaken by EOF, the calls made in one loop iteration
+    {'kind': 'witness:queued-output-two-disconnects', 'server': False,
+     'ops': [['new', 'direct', 0, 0, 0], ['at', 0, 'connectOk', 'ok'], ['at', 0, 'queue', 'block'],
+             ['at', 0, 'disconnect', 'REQUESTED'], ['at', 0, 'disconnect', 'REQUESTED'], ['at', 0, 'drainOk']]},
+    {'kind': 'witness:queued-output-disconnect-then-eof', 'server': False,
+     'ops': [['new', 'incoming', 0, 0, 0], ['at', 0, 'firstFrame', 'initP'], ['at', 0, 'queue', 'block'],
+             ['at', 0, 'disconnect', 'REQUESTED'], ['at', 0, 'eof'], ['at', 0, 'drainOk']]},
+    {'kind': 'witness:queued-output-same-iteration', 'server': False,
+     'ops': [['new', 'direct', 0, 1, 0], ['at', 0, 'connectOk', 'ok'],
+             ['at', 0, 'burst', [['queue', 'ok'], ['disconnect', 'REQUESTED'], ['disconnect', 'REQUESTED']]],
+             ['at', 0, 'closeDone', 'release']]},
+    # both ports advertised and obfuscation preferred: the dialled (obfuscated) port fails; whatever connects next is driven
+    {'kind': 'witness:connect-back-both-ports-first-fails', 'server': False, 'cfg': {'obfuscate': 1},
+     'ops': [['new', 'back', 0, 0, 2], ['at', 0, 'connectFail'], ['at', 0, 'connectOk', 'ok'], ['at', 0, 'frame', 1],
+             ['at', 0, 'send', 'ok'], ['at', 0, 'eof']]},
+    {'kind': 'witness:looked-up-both-ports-first-fails', 'server': False, 'cfg': {'obfuscate': 1},
+     'ops': [['new', 'direct', 0, 0, 2], ['at', 0, 'connectFail'], ['at', 0, 'connectOk', 'ok'], ['at', 0, 'frame', 1],
+             ['at', 0, 'send', 'ok'], ['at', 0, 'eof']]},
 ]
 
 
@@ -1356,24 +1385,43 @@ class C10(Property):
             'init write fails / drain times out / reset, EOF / reset / partial frame / read timeout before and after the '
             'init message, undecodable init, unknown pierce ticket, send fails / times out, server restart, connect raising a '
             'non-OSError}, each followed '
-            'by further disconnect/send calls; Network.disconnect() over 12 set-ups, alone and with a connection accepted / '
+            'by further disconnect/send calls; OUTPUT PENDING: messages queued with queue_message (drain held back, or the '
+            'task not yet started: calls made in one loop iteration = burst) on direct P/F, connect-back, accepted (before / '
+            'after init) and server connections x wait_closed {returns, suspends} x first closer {disconnect() with each of '
+            'the 7 close reasons, EOF, reset, partial frame, read timer, the send timer / write error of the queued send '
+            'itself, write error of another send} x second closer x the drain released before / between / after them; '
+            'CONFIGURATION: network.peer.obfuscate on/off x ports advertised {regular, obfuscated, both} in ConnectToPeer / in '
+            'the GetPeerAddress answer (address look-up) x P/F x first attempt {refused, timeout, non-OSError, cancelled, '
+            'disconnect while opening, ok, init write fails / parked + reset / cancel / ok}, each followed by probes (further '
+            'connect completion, frames, sends, EOF, disconnect); the public create_peer_connection in fallback and race mode '
+            'over the same grid x indirect {peer pierces on either port, CannotConnect, timeout, cancel} in both orders '
+            '(monitor only); Network.disconnect() over 12 set-ups, alone and with a connection accepted / '
             'requested in the same loop iteration behind the call or in the window a slow wait_closed opens (model: cancel '
             'of the running connect-back tasks + disconnect() on the server connection and every registered connection); '
-            'plus random op sequences (6..22 ops over 1..3 connections) derived from '
-            'VERIF_SEED. A case is non-trivial when a connection was reported CLOSED and at least 3 ops were executed; '
+            'plus random op sequences (6..22 ops over 1..3 connections, all of the above ops, 12 % monitor-only with '
+            'create_peer_connection and bursts that mix calls and remote events) derived from VERIF_SEED; the quick tier runs '
+            'the core of the two added grids plus a quarter / a third of the rest rotated by the seed. The monitor keeps one '
+            'track per connection OBJECT (also objects the scenario did not ask for). A case is non-trivial when a connection was reported CLOSED and at least 3 ops were executed; '
             'distinct = distinct executed op list')
     assumptions = [
         'each environment completion (connect result, bytes, EOF/reset, timer, drain/wait_closed return, API call) is '
         'processed to quiescence before the next one; n concurrent disconnect() calls issued in one loop iteration are '
         'compared with n sequential calls of the model',
         'EventBus listeners of the state/message events do not suspend',
+        'calls made in one loop iteration (burst) are compared with the same calls one after the other; modelled bursts '
+        'are sends / queued sends first, then disconnect calls (a queue_message call made BEHIND a disconnect call of the '
+        'same iteration is cancelled before its first step instead of being refused: monitor-only bursts)',
+        'at most one direct send and one queued send are parked in drain() per connection; when both are parked and '
+        'nothing else is, a reset is not scheduled (which drain waiter wakes first is not part of the control state)',
         'nobody but the reader loop / accept handler reads from a connection (type F connections are not read here), '
         'so EOF/reset/frames are only delivered to a parked reader',
         'the server connection stays connected while a connect-back attempt reports CannotConnect',
     ]
     modelled = ('Connection.set_state; ListeningConnection.accept; DataConnection.connect/disconnect, _read/_send error '
-                'arms, send_message, _message_reader_loop; Network registry append/remove sites, _make_direct_connection, '
-                '_handle_connect_to_peer, on_peer_accepted, _finalize_peer_connection. Exercised only: obfuscation, '
+                'arms, send_message, queue_message / _cancel_queued_messages, _message_reader_loop; Network registry append/remove sites, _make_direct_connection, '
+                '_handle_connect_to_peer, on_peer_accepted, _finalize_peer_connection. Exercised only: select_port / '
+                '_get_peer_address (which port is dialled does not change the life cycle), create_peer_connection in both '
+                'modes (monitor only; model in C11), obfuscation, '
                 'message codec, EventBus, asyncio streams/timeouts (through the gated fake net)')
 
     def _cases(self, seed, tier, widen):
